@@ -1,7 +1,7 @@
 """Contracts for content matching and the validity predicates built on it (C07; used by C15, C12)."""
 import os
 
-from pyvc.api import abstract, contract, lemma, spec_file
+from pyvc.api import abstract, cls, contract, lemma, spec_file
 
 from . import classes  # noqa: F401
 from . import model_core  # noqa: F401
@@ -94,6 +94,9 @@ from pyvc.api import abstract as _abstract  # noqa: E402
 _abstract("req_attrs", ["NodeType"], "bool")
 contract(FS, "NodeType.has_required_attrs", {"self": "NodeType"}, returns="bool", defines=["result == req_attrs(self)"],
          trusted="naming of a pure predicate of the node type (any attribute without default); dictionary iteration is outside the verifier's kinds", props=["C15"])
+# an attribute is required exactly when its declaration has no `default` key (an explicit default of None is a default)
+cls("Attribute", "prosemirror/model/schema.py", {"has_default": "bool", "default": "any"})
+contract(FS, "Attribute.is_required", {"self": "Attribute"}, returns="bool", is_property=True, ensures=["result == (not self.has_default)"], props=["C15", "C05"])
 contract(FC, "ContentMatch.default_type", {"self": "ContentMatch"}, returns="opt[NodeType]", is_property=True,
          ensures=["(result is None) == (gen_idx(self.next, 0) < 0)", "result is not None ==> result == self.next[gen_idx(self.next, 0)].type",
                   "result is not None ==> not result.is_text and not req_attrs(result)"],
